@@ -9,6 +9,11 @@ fn usage() -> ! {
     std::process::exit(64);
 }
 
+fn node_kind_at(root: &syntax::SyntaxNode, at: usize) -> String {
+    let t = root.token_at_offset((at as u32).into()).right_biased();
+    t.map(|t| t.parent_ancestors().take(4).map(|n| format!("{:?}", n.kind())).collect::<Vec<_>>().join("<")).unwrap_or_default()
+}
+
 fn main() {
     ws::init_env();
     let args: Vec<String> = std::env::args().collect();
@@ -146,6 +151,88 @@ fn main() {
                         }
                     }
                 }
+            }
+            0
+        }
+        "corpus-outline" if args.len() >= 4 => {
+            // developer/audit tool: compares, per file of the workspace, the names of the class / def /
+            // defset / multiclass / defm statements that the syntax tree holds outside multiclass bodies
+            // (plain identifier names only) with the names in the outline
+            let base = std::path::Path::new(&args[2]);
+            let mut files: Vec<(String, String)> = Vec::new();
+            let mut stack = vec![base.to_path_buf()];
+            while let Some(d) = stack.pop() {
+                for e in std::fs::read_dir(&d).unwrap().flatten() {
+                    let p = e.path();
+                    if p.is_dir() {
+                        stack.push(p);
+                    } else if p.extension().map(|x| x == "td").unwrap_or(false) {
+                        let rel = p.strip_prefix(base).unwrap().to_string_lossy().to_string();
+                        files.push((format!("{}/{rel}", ws::INC_DIR), std::fs::read_to_string(&p).unwrap_or_default()));
+                    }
+                }
+            }
+            let root = format!("{}/{}", ws::INC_DIR, args[3]);
+            let w = ws::Workspace::new(&files, &root);
+            let a = w.analysis();
+            use syntax::syntax_kind::SyntaxKind as K;
+            for (f, _) in a.diagnostics() {
+                let Some(text) = w.text_of(f).cloned() else { continue };
+                let path = w.fs.path_of(f).unwrap_or_default();
+                let parse = syntax::parse(&text);
+                let mut want: Vec<(String, usize)> = Vec::new();
+                for node in parse.syntax_node().descendants() {
+                    if !matches!(node.kind(), K::Class | K::Def | K::Defset | K::MultiClass | K::Defm) {
+                        continue;
+                    }
+                    if node.ancestors().skip(1).any(|x| x.kind() == K::MultiClass) {
+                        continue;
+                    }
+                    // the name: the first identifier token that is a direct child, or the only identifier of a
+                    // direct Value child without paste
+                    let mut name: Option<(String, usize)> = None;
+                    for ch in node.children_with_tokens() {
+                        match ch {
+                            rowan::NodeOrToken::Node(n) if n.kind() == K::Identifier => {
+                                let t = n.text().to_string();
+                                let lead = t.len() - t.trim_start().len();
+                                name = Some((t.trim().to_string(), u32::from(n.text_range().start()) as usize + lead));
+                                break;
+                            }
+                            rowan::NodeOrToken::Node(n) if n.kind() == K::Value => {
+                                let t = n.text().to_string();
+                                if t.trim().chars().all(|c| c.is_ascii_alphanumeric() || c == '_') && !t.trim().is_empty() {
+                                    let lead = t.len() - t.trim_start().len();
+                                    name = Some((t.trim().to_string(), u32::from(n.text_range().start()) as usize + lead));
+                                }
+                                break;
+                            }
+                            rowan::NodeOrToken::Node(n) if matches!(n.kind(), K::ParentClassList | K::RecordBody | K::Body | K::TemplateArgList) => break,
+                            _ => {}
+                        }
+                    }
+                    if let Some(nm) = name {
+                        want.push(nm);
+                    }
+                }
+                let mut got: Vec<(String, usize)> = Vec::new();
+                fn walk(s: &ide::handlers::document_symbol::DocumentSymbol, out: &mut Vec<(String, usize)>) {
+                    use ide::handlers::document_symbol::DocumentSymbolKind as D;
+                    if !matches!(s.kind, D::TemplateArgument | D::Field) {
+                        out.push((s.name.to_string(), u32::from(s.range.start()) as usize));
+                    }
+                    for c in &s.children {
+                        walk(c, out);
+                    }
+                }
+                for s in a.document_symbol(f).unwrap_or_default() {
+                    walk(&s, &mut got);
+                }
+                want.sort();
+                got.sort();
+                let missing: Vec<_> = want.iter().filter(|x| !got.contains(x)).take(5).map(|x| { let k = node_kind_at(&parse.syntax_node(), x.1); (x.0.clone(), x.1, k) }).collect();
+                let extra: Vec<_> = got.iter().filter(|x| !want.contains(x)).take(6).collect();
+                println!("{}: {} statements, {} outline entries, missing {:?} extra {:?}", path.rsplit('/').next().unwrap_or(""), want.len(), got.len(), missing, extra);
             }
             0
         }
